@@ -65,7 +65,9 @@ theorem C18_gen_deviation_eq_model {W : Type} (es : EarlyStopping ℝ) (ev : Any
 
 /-- **bridge C18 (gates)**: for a non-zero period and a finite tolerance, `on_epoch_end` of the model (period gate, length
 gate `len > patience`, `deviation < tolerance`, the two attribute writes) is the function translated from the Python
-source, applied to the value of the model's deviation. -/
+source, applied to the value of the model's deviation.  NOTE: `hdev` (the deviation returns) can only be met with the length
+gate OPEN (`patience < len`: the lookback index is in range), so THIS statement alone does not tie the length gate; the
+closed half is `C18_gen_on_epoch_end_gate_closed`, both together without `hdev`: `C18_gen_on_epoch_end_eq_model_total`. -/
 theorem C18_gen_on_epoch_end_eq_model {W : Type} (es : EarlyStopping ℝ) (ev : AnyEval W ℝ) (st : StopState) (e : Int) (t : ℝ)
     (d : Option (Num ℝ)) (hper : es.period ≠ 0) (htol : es.tolerance = some t) (hdev : es.deviation ev = .ok d) :
     es.onEpochEnd ev st e
@@ -76,5 +78,98 @@ theorem C18_gen_on_epoch_end_eq_model {W : Type} (es : EarlyStopping ℝ) (ev : 
   by_cases hg : Int.fmod e es.period = 0 <;> by_cases hl : es.patience < (ev.len : Int) <;> cases d <;>
     simp [hg, hl, devFl, belowTol]
   all_goals (try split) <;> simp_all
+
+/-- **bridge C18 (gates, CLOSED half)**: for a non-zero period, whenever the period gate is closed (`epoch` is not a
+multiple of the stopper's period) or the length gate is closed (`len ≤ patience`: fewer than `patience + 1` evaluations),
+BOTH sides leave the stopper state (flag, `last_epoch`) as it was and neither looks at the deviation: the model returns
+`st` for EVERY evaluator of that length (incl. those whose getters would raise), the translated `on_epoch_end` returns
+the entry values for EVERY tolerance and EVERY deviation value.  Together with `C18_gen_on_epoch_end_eq_model` (whose
+hypothesis `hdev` can only be met with the length gate open) this ties the length gate `len > patience` on both sides:
+a `≥` gate (or no gate) on either side falsifies this theorem at `len = patience`. -/
+theorem C18_gen_on_epoch_end_gate_closed {W : Type} (es : EarlyStopping ℝ) (ev : AnyEval W ℝ) (st : StopState) (e : Int)
+    (hper : es.period ≠ 0) (hclosed : Int.fmod e es.period ≠ 0 ∨ (ev.len : Int) ≤ es.patience) :
+    es.onEpochEnd ev st e = .ok st
+    ∧ (∀ ev' : AnyEval W ℝ, ev'.len = ev.len → es.onEpochEnd ev' st e = .ok st)
+    ∧ ∀ (tol dAny : Fl ℝ), Gen.EarlyStopping.onEpochEnd e es.patience es.period tol (ev.len : Int) dAny st.stop st.lastEpoch
+        = (st.stop, st.lastEpoch) := by
+  have key : ∀ ev' : AnyEval W ℝ, ev'.len = ev.len → es.onEpochEnd ev' st e = .ok st := by
+    intro ev' hlen
+    unfold Cb.EarlyStopping.onEpochEnd
+    simp only [gate, pyMod, hper, if_false, hlen]
+    have hb : ∀ hg : Int.fmod e es.period ≠ 0, (Int.fmod e es.period == 0) = false := fun hg => by simpa using hg
+    rcases hclosed with hg | hl
+    · simp [hb hg]
+    · by_cases hg : Int.fmod e es.period = 0
+      · have : ¬ es.patience < (ev.len : Int) := by omega
+        simp [hg, this]
+      · simp [hb hg]
+  refine ⟨key ev rfl, key, ?_⟩
+  intro tol dAny
+  unfold Gen.EarlyStopping.onEpochEnd
+  rcases hclosed with hg | hl
+  · simp [hg]
+  · have : ¬ es.patience < (ev.len : Int) := by omega
+    simp [this]
+
+/-- a deviation that returns has read its getters: reference value, current value and (variance criterion) the
+reference variance all returned -/
+theorem deviation_ok_getters {W : Type} (es : EarlyStopping ℝ) (ev : AnyEval W ℝ) (d : Option (Num ℝ))
+    (hdev : es.deviation ev = .ok d) :
+    ∃ ref cur var : Num ℝ, ev.value es.quantityName (some (-es.patience - 1)) = .ok ref
+      ∧ ev.value es.quantityName none = .ok cur
+      ∧ (es.criterion = .variance → ev.variance es.quantityName (some (-es.patience - 1)) = .ok var) := by
+  unfold Cb.EarlyStopping.deviation at hdev
+  cases href : ev.value es.quantityName (some (-es.patience - 1)) with
+  | error x =>
+    cases hc : es.criterion <;>
+      simp [hc, Cb.EarlyStopping.relativeChange, Cb.EarlyStopping.absoluteChange, Cb.EarlyStopping.varianceScaledAbsChange,
+        Cb.EarlyStopping.changeInMetric, href] at hdev
+  | ok ref =>
+    cases hcur : ev.value es.quantityName none with
+    | error x =>
+      cases hc : es.criterion <;>
+        simp [hc, Cb.EarlyStopping.relativeChange, Cb.EarlyStopping.absoluteChange, Cb.EarlyStopping.varianceScaledAbsChange,
+          Cb.EarlyStopping.changeInMetric, href, hcur] at hdev
+    | ok cur =>
+      cases hvar : ev.variance es.quantityName (some (-es.patience - 1)) with
+      | ok var => exact ⟨ref, cur, var, rfl, rfl, fun _ => rfl⟩
+      | error x =>
+        refine ⟨ref, cur, ref, rfl, rfl, fun hc => ?_⟩
+        simp [hc, Cb.EarlyStopping.varianceScaledAbsChange, Cb.EarlyStopping.changeInMetric, href, hcur, hvar] at hdev
+
+/-- **bridge C18 (gates, total)**: for a non-zero period and a finite tolerance, with NO hypothesis on the evaluator:
+whenever the model's `on_epoch_end` returns, its result is the translated `on_epoch_end` applied to the translated
+deviation formula (`genDeviation`: the getters of this very evaluator) — with either gate closed as well as with both
+open; and the model raises exactly when both gates are open and the deviation (a getter) raises, with that exception
+(the generated code has no exceptions: a raising getter has no value there).  A `≥` length gate on either side is
+refuted by an evaluator with `len = patience`, a missing gate likewise. -/
+theorem C18_gen_on_epoch_end_eq_model_total {W : Type} (es : EarlyStopping ℝ) (ev : AnyEval W ℝ) (st : StopState) (e : Int)
+    (t : ℝ) (hper : es.period ≠ 0) (htol : es.tolerance = some t) :
+    match es.onEpochEnd ev st e with
+    | .ok st' =>
+      st' = ⟨(Gen.EarlyStopping.onEpochEnd e es.patience es.period (some t) (ev.len : Int) (genDeviation es ev) st.stop st.lastEpoch).1,
+             (Gen.EarlyStopping.onEpochEnd e es.patience es.period (some t) (ev.len : Int) (genDeviation es ev) st.stop st.lastEpoch).2⟩
+    | .error err => Int.fmod e es.period = 0 ∧ es.patience < (ev.len : Int) ∧ es.deviation ev = .error err := by
+  by_cases hopen : Int.fmod e es.period = 0 ∧ es.patience < (ev.len : Int)
+  · cases hdev : es.deviation ev with
+    | ok d =>
+      obtain ⟨ref, cur, var, href, hcur, hvar⟩ := deviation_ok_getters es ev d hdev
+      obtain ⟨d', hd', hgen⟩ := C18_gen_deviation_eq_model es ev ref cur var href hcur hvar
+      have hdd : d' = d := by rw [hdev] at hd'; exact (Except.ok.inj hd').symm
+      subst hdd
+      rw [C18_gen_on_epoch_end_eq_model es ev st e t d' hper htol hdev, hgen]
+    | error err =>
+      have : es.onEpochEnd ev st e = .error err := by
+        unfold Cb.EarlyStopping.onEpochEnd
+        simp [gate, pyMod, hper, hopen.1, hopen.2, hdev]
+      rw [this]
+      exact ⟨hopen.1, hopen.2, rfl⟩
+  · have hclosed : Int.fmod e es.period ≠ 0 ∨ (ev.len : Int) ≤ es.patience := by
+      by_cases hg : Int.fmod e es.period = 0
+      · right; have := fun h => hopen ⟨hg, h⟩; omega
+      · left; exact hg
+    obtain ⟨h1, _, h3⟩ := C18_gen_on_epoch_end_gate_closed es ev st e hper hclosed
+    rw [h1]
+    simp [h3]
 
 end QV.Props
